@@ -194,10 +194,20 @@ fn main() {
         None => default_methods(),
     };
     let csi = CsiMethods::new(&methods);
-    let prologue = if w.config.prologue.unwrap_or(false) { rewriter::generate_prefix_stmts(&csi) } else { Vec::new() };
+    // --only-panics: ignore the witness's own conditions; REPRODUCED iff the call panics.  --stress-config: additionally switch
+    // on chaining, comments, literals and the file prologue (the configuration the shipped bindings build).
+    let only_panics = args.iter().any(|a| a == "--only-panics");
+    let stress = args.iter().any(|a| a == "--stress-config");
+    let with_prologue = w.config.prologue.unwrap_or(false) || stress;
+    let prologue = if with_prologue {
+        // an earlier call with ANOTHER configuration must not influence this one (the bindings build one prologue per Rewriter)
+        let other = CsiMethods::new(&vec![CsiMethod::new("verifWarmUp".to_string(), None, false, false)]);
+        let _ = rewriter::generate_prefix_stmts(&other);
+        rewriter::generate_prefix_stmts(&csi)
+    } else { Vec::new() };
     let config = rewriter::Config {
-        chain_source_map: w.config.chain_source_map.unwrap_or(false),
-        print_comments: w.config.print_comments.unwrap_or(false),
+        chain_source_map: w.config.chain_source_map.unwrap_or(false) || stress,
+        print_comments: w.config.print_comments.unwrap_or(false) || stress,
         local_var_prefix: w.config.local_var_prefix.clone().unwrap_or_else(|| "test".to_string()),
         csi_methods: csi,
         verbosity: TelemetryVerbosity::parse(w.config.verbosity.clone().or(Some("DEBUG".to_string()))),
@@ -347,7 +357,8 @@ fn main() {
     }
 
     let mut all = true;
-    for cond in &w.violated_when {
+    let no_conds: Vec<serde_json::Value> = Vec::new();
+    for cond in (if only_panics { &no_conds } else { &w.violated_when }) {
         let obj = cond.as_object().expect("condition object");
         for (k, v) in obj {
             let holds = match k.as_str() {
@@ -358,6 +369,13 @@ fn main() {
                     !panicked && errored.is_none() && verdict.starts_with("EXEC-DIFFERS")
                 }
                 // some hook call received a first argument that is not the operation applied to its other arguments
+                // the file prologue must not replace a hook object that is already installed, and must define pass-throughs when
+                // none is installed (needs config.prologue = true)
+                "prologue_misbehaves" => {
+                    let verdict = exec_oracle("prologue", &w.source, &code, v.as_str().unwrap());
+                    println!("--- exec oracle: {verdict}");
+                    !panicked && errored.is_none() && verdict.starts_with("PROLOGUE-WRONG")
+                }
                 "hook_args_wrong" => {
                     let verdict = exec_oracle("hooks", &w.source, &code, v.as_str().unwrap());
                     println!("--- exec oracle: {verdict}");
@@ -528,6 +546,10 @@ fn main() {
             println!("--- condition {k}={v} holds={holds}");
             all &= holds;
         }
+    }
+    if only_panics {
+        println!("--- only-panics mode: panicked={panicked}");
+        all = panicked;
     }
     println!("{}", if all { "REPRODUCED" } else { "NOT-REPRODUCED" });
 }
